@@ -173,6 +173,21 @@ def run(pid, tier, seed, replay=None):
                         ok = False
                     if ok:
                         items.append({"id": len(items), "inp": tpl, "conv": conv, "kcmd": cmd, "pred": None})
+        # GENERATE B': every command of the table in another letter case (capitalised, upper case, swapped) is an UNKNOWN
+        # command and must stay verbatim with conversion on
+        flips = 0
+        for cmd in cmds:
+            body = cmd[1:]
+            if not body.replace("{", "").replace("}", "").isalpha() or not body[:1].isalpha():
+                continue
+            for alt in {"\\" + body.capitalize(), "\\" + body.upper(), "\\" + body.swapcase()}:
+                name = alt[1:].split("{")[0]
+                if alt in table or alt == cmd or name in table or ("\\" + name) in table or name in READER_WORDS or name.lower() in READER_WORDS:
+                    continue
+                for tpl in (["K"], ["x", "sp", "K", "1"]):
+                    items.append({"id": len(items), "inp": tpl, "conv": True, "kcmd": alt, "pred": None})
+                    flips += 1
+        ctx.extra["case_variants_of_table_commands"] = flips
         batches = [{"items": items[k:k + 120]} for k in range(0, len(items), 120)]
         # GENERATE D: the same strings in a five-column frame whose grouping column is removed from the display, with
         # text_convert given as a column pattern narrower than the frame (per-cell control must follow the caller's columns)
